@@ -98,6 +98,11 @@ func genLargeProject(seed int64) (*proj.Project, int, int) {
 		dec := func(pkg, fn string, k int) string {
 			return fmt.Sprintf("package %s\n\nfunc %s(a int) int {\n\ta++\n\ta += %d\n\treturn a\n}\n", pkg, fn, k)
 		}
+		// files that exist only in the new revision and sort before everything else: the first
+		// tasks the diff workers pick up all read fresh objects (first use of the pack index)
+		for d := 0; d < 12; d++ {
+			p.ExtraNew[fmt.Sprintf(".added/a%02d/a.go", d)] = dec("a", "Added", d)
+		}
 		p.ExtraOld["tools/gen/go.mod"] = "module example.com/gen\n\ngo 1.23\n"
 		p.ExtraNew["tools/gen/go.mod"] = p.ExtraOld["tools/gen/go.mod"]
 		for d := 0; d < 4; d++ {
